@@ -36,7 +36,7 @@ class PBView:
         self.body = prog.one(r"private_batch::circuit::circuit_logic::build_private_batch_constraints$", AGG)
         ck.saw(self.body)
         # helpers of the aggregator crate are expanded in place (an extracted helper is the same circuit); gadgets of the common crate stay atomic
-        self.ev = T.Evaluator(prog, inline=lambda p: (p.startswith(AGG + "::") or p.startswith("<" + AGG + "::")) and "{closure" not in p)
+        self.ev = T.Evaluator(prog, inline=lambda p: (p.startswith(AGG + "::") or p.startswith("<" + AGG + "::")) and "{closure" not in p, names=False)
         self.fr = self.ev.frame(self.body)
         self.effects = self.fr.effects()
         for e in self.effects:
@@ -209,7 +209,8 @@ def analyse(ck, prog=None):
                             others = [x for x in o if not (isinstance(x, tuple) and x[0] in ("rec", "phi"))]
                             fr_ok = len(recs) == 1 and len(others) == 1 and notD(others[0]) == i[0]
         r = circ.range_expr(i[0][1]) if (ok and isinstance(i[0], tuple) and i[0][0] == "elem") else None
-        rng_ok = r is not None and P.const_of(r[0]) == 0 and P.norm(r[1]) == n
+        # 0..n_leaf, also written 0..is_dummy_flags.len(): the flag vector has exactly one entry per slot (pb/is-dummy-flag/all-slots)
+        rng_ok = r is not None and P.const_of(r[0]) == 0 and (P.norm(r[1]) == n or (take_ok and P.norm(r[1]) == ("len", D)))
         ob.add({"C06", "C09"}, ok and fr_ok and rng_ok, "TERM", "pb/first-real/%s/take" % what,
                "take_i = and(not is_dummy_i, not found_real), found_real = {false, or(found_real, not is_dummy_i)}, i over 0..n_leaf", loc(e), T.show(take, maxdepth=9)[:500])
         return i[0] if ok else None
